@@ -59,6 +59,7 @@ type Val struct {
 	Tuple []Val
 	Clo   *closure
 	Iter  *ssa.Range
+	chanName string // for channel values loaded from a struct field: "pkg.Type.field"
 }
 
 type deferred struct {
@@ -126,6 +127,9 @@ type FnCtx struct {
 	anchors map[*ssa.CallCommon]string
 	atSorts map[string]string
 	usedLemmas map[string]bool
+	entryHeld []string
+	localBoxes map[string][]string
+	curArgs []Val
 	loopDecs map[*loopInfo]string
 }
 
@@ -687,6 +691,9 @@ func (fc *FnCtx) load(st *State, a *Addr) Val {
 	}
 	ty := a.Ty
 	v := fc.mkVal(t, ty)
+	if _, isChan := ty.Underlying().(*types.Chan); isChan && a.Kind == aField && len(a.Path) == 0 {
+		v.chanName = fc.eng.typeName(a.Owner) + "." + a.Owner.Underlying().(*types.Struct).Field(a.Field).Name()
+	}
 	if len(a.Path) == 0 && a.Kind != aLocal {
 		// values read from shared memory satisfy their type invariant
 		if inv := fc.sorts.TypeInv(ty, t, st.alloc); inv != "true" && isCheapInv(ty) {
